@@ -344,11 +344,6 @@ func (c *checker) constructCase(p *mqttx.Packet, v mqttx.Version) {
 	r.Eval(1)
 	r.Count("inputs_construct", 1)
 	tn, vs := mqttx.TypeName(p.Type), vstr(v)
-	if p.Type != mqttx.PUBLISH && p.Dup {
-		// the MQTT 3.1 DUP flag of PUBREL/SUBSCRIBE/UNSUBSCRIBE cannot be expressed in gmqtt's structs
-		p = clonePacket(p)
-		p.Dup = false
-	}
 	g := toGmqtt(p, v)
 	det := map[string]any{"generator": "construct", "version": int(v), "value": p.String()}
 	if want, err := mqttx.Encode(p, v); err == nil {
